@@ -121,6 +121,34 @@ pub fn run(ctx: &mut Ctx) {
                 Ok(Ok(true)) => {}
                 other => ctx.fail(case, &format!("check-{}", hows), &format!("Container::check with packs {:?} {} = {:?}", unavailable.keys().collect::<Vec<_>>(), hows, other.map(|r| r.map_err(|e| util::err_kind(&e))))),
             }
+            // … and it does cover them: one altered byte inside the checked range of any present,
+            // separately located pack makes the check fail, whichever other packs are unavailable
+            for (id, loc) in sep.iter() {
+                if unavailable.contains_key(id) {
+                    continue;
+                }
+                let p = vdir.join(loc);
+                let orig = match std::fs::read(&p) {
+                    Ok(b) => b,
+                    Err(_) => continue,
+                };
+                let packs = container::packs_in_file(&orig);
+                let Some(pk) = packs.iter().find(|pk| pk.kind == b'c') else { continue };
+                if pk.check_info_pos <= 130 {
+                    continue;
+                }
+                // a byte after the two header blocks and before the check block: cluster data / tails / tables
+                let pos = pk.origin + 128 + crng.below((pk.check_info_pos - 128) as u64) as usize;
+                let mut damaged = orig.clone();
+                damaged[pos] ^= 0x20;
+                std::fs::write(&p, &damaged).unwrap();
+                let chk = util::guarded(|| jbk::reader::Container::new(&ventry).and_then(|c| c.check()));
+                if let Ok(Ok(true)) = chk {
+                    ctx.fail(case, "check-misses-present-pack", &format!("{}: packs {:?} {}; byte {} of present pack {} ({}) altered: Container::check() = Ok(true)", mode.name(), unavailable.keys().collect::<Vec<_>>(), hows, pos, id, loc));
+                }
+                std::fs::write(&p, &orig).unwrap();
+                ctx.count("present_pack_altered_checks");
+            }
             let decdir = vdir.join("_dec");
             container::dump_all_clusters(&vdir, &decdir);
             ctx.emit(case, &format!("ct.open {} {} {}", vdir.display(), ventry.file_name().unwrap().to_string_lossy(), decdir.display()), &got.join(";"));
